@@ -222,14 +222,6 @@ theorem sem_stage (s : Stage) (raw : List (Notif α)) :
     rw [sem_filterIndexed, refFilterIdx_pure (fun _ i => i % step == 0)]
   | taggedTail k stop => simp only [Stage.evalSeq]; exact sem_taggedTail k stop raw
 
-theorem emitsSeq_id (xs : List α) (e : End) : cut ((idOp (α := α)).emitsSeq () xs e) = outSeq xs e := by
-  induction xs with
-  | nil => cases e <;> simp [Op.emitsSeq, idOp, End.toNotifs]
-  | cons x xs ih => simp_all [Op.emitsSeq, idOp, outSeq_cons]
-
-theorem sem_idOp (raw : List (Notif α)) : (idOp (α := α)).sem raw = outSeq (elems raw) (fin raw) := by
-  rw [sem_simple _ rfl rfl]; exact emitsSeq_id _ _
-
 theorem sem_pipeOp (stages : List Stage) (raw : List (Notif α)) :
     (pipeOp stages).sem raw
       = outSeq (evalSeqStages stages (elems raw, fin raw)).1 (evalSeqStages stages (elems raw, fin raw)).2 := by
@@ -241,5 +233,60 @@ theorem sem_pipeOp (stages : List Stage) (raw : List (Notif α)) :
     | cons s2 rest =>
       rw [pipeOp, sem_comp, ih, sem_stage]
       simp [evalSeqStages]
+
+/-! ### the stride form of `pySlice` is the index comprehension -/
+
+theorem filterMap_congr' {β γ : Type} {f g : β → Option γ} {l : List β} (h : ∀ a, a ∈ l → f a = g a) :
+    l.filterMap f = l.filterMap g := by
+  induction l with
+  | nil => rfl
+  | cons a l ih =>
+    simp only [List.filterMap_cons, h a (List.mem_cons_self ..)]
+    rw [ih (fun b hb => h b (List.mem_cons_of_mem _ hb))]
+
+theorem filter_zipIdx_eq_range' (q : Nat → Bool) (ys : List α) (o : Nat) :
+    ((ys.zipIdx o).filter (fun t => q t.2)).map (·.1)
+      = (List.range' o ys.length).filterMap (fun i => if q i then ys[i - o]? else none) := by
+  induction ys generalizing o with
+  | nil => simp
+  | cons y ys ih =>
+    simp only [List.zipIdx_cons, List.length_cons, List.range'_succ, List.filterMap_cons, Nat.sub_self,
+      List.getElem?_cons_zero, List.filter_cons]
+    have htail : (List.range' (o + 1) ys.length).filterMap (fun i => if q i then (y :: ys)[i - o]? else none)
+        = (List.range' (o + 1) ys.length).filterMap (fun i => if q i then ys[i - (o + 1)]? else none) := by
+      apply filterMap_congr'
+      intro i hi
+      have : o + 1 ≤ i := (List.mem_range'_1.mp hi).1
+      obtain ⟨d, hd⟩ : ∃ d, i - o = d + 1 := ⟨i - o - 1, by omega⟩
+      rw [hd, List.getElem?_cons_succ, show i - (o + 1) = d by omega]
+    cases hq : q o
+    · simp only [Bool.false_eq_true, if_false]; rw [htail, ← ih (o + 1)]
+    · simp only [if_true, List.map_cons]; rw [htail, ← ih (o + 1)]
+
+theorem clampIdx_le (len : Nat) (i : Option Int) (d : Nat) (hd : d ≤ len) : clampIdx len i d ≤ len := by
+  unfold clampIdx
+  cases i with
+  | none => exact hd
+  | some i => simp only; split <;> omega
+
+/-- the stride form and the index-comprehension form of Python's slice agree -/
+theorem pySlice_eq_idx (xs : List α) (start stop : Option Int) (step : Int) :
+    pySlice xs start stop step = pySliceIdx xs start stop step := by
+  unfold pySlice pySliceIdx stride
+  have he := clampIdx_le xs.length stop xs.length (Nat.le_refl _)
+  generalize clampIdx xs.length start 0 = s at *
+  generalize clampIdx xs.length stop xs.length = e at *
+  simp only []
+  rw [filter_zipIdx_eq_range' (fun i => i % step.toNat == 0)]
+  simp only [List.length_drop, List.length_take, Nat.min_eq_left he]
+  rw [List.range'_eq_map_range (s := s), List.range'_eq_map_range (s := 0), List.filterMap_map, List.filterMap_map]
+  apply filterMap_congr'
+  intro i hi
+  have hi' : i < e - s := List.mem_range.mp hi
+  simp only [Function.comp, Nat.sub_zero, Nat.zero_add, Nat.add_sub_cancel_left]
+  cases (i % step.toNat == 0)
+  · rfl
+  · simp only [if_true, List.getElem?_drop, List.getElem?_take]
+    rw [if_pos (by omega)]
 
 end Ops.Slice
